@@ -31,7 +31,7 @@ class C13(Prop):
     pid = "C13"
     prop_file = "Props/C13.v"
     module = "Props.C13"
-    gen_deps = ["Style"]
+    gen_deps = ["Style", "StyleFn"]
     harness = ("h-core", "hcore")
     nontrivial_rule = ("cases: every one of the 4096 effect sets (built from the twelve public constants) through is_plain/clear/contains/iter/Debug (eff1); "
                        "every set x the 12 singletons and a seeded sample of 10^5 pairs through insert/remove/contains/set/|/-/|=/-= with full results (effx); "
